@@ -57,7 +57,8 @@ partial def pProg : P (Prog Q)
   | "-" :: r => do let (p, r) ← pProg r; let (q, r) ← pProg r; pure (.sub p q, r)
   | "*c" :: k :: r => do
       let (c, r) ← pRat r; let (p, r) ← pProg r
-      pure (.mulC (if k = "py" then .pyNumber else .tensor) c p, r)
+      let _ := k
+      pure (.mulC c p, r)
   | "/c" :: r => do
       let (c, r) ← pRat r; let (p, r) ← pProg r
       if c = 0 then none else pure (.divC c (1 / c) p, r)
@@ -79,14 +80,13 @@ def ratSqrt (c : Q) : Q :=
   | some a, some b => mkRat a b
   | _, _ => 0
 
-def env (cfg : Cfg) : Env Q where
-  cfg := cfg
+def env : Env Q where
   S := { pos := fun c => decide (0 < c), sqrt := ratSqrt }
   -- stand-in for the numerical root decomposition: an opaque operator with the same value
   rootDec := fun a => .opq 98 a.rows a.cols a.denote
 
 def showErr : Err → String
-  | .notSupported => "notSupported" | .shape => "shape" | .internal d => s!"internal{d}"
+  | .notSupported => "notSupported" | .shape => "shape"
 
 def showVals (r : Op Q) : String :=
   let n := r.rows; let m := r.cols
@@ -96,12 +96,9 @@ def showVals (r : Op Q) : String :=
 
 def stepLine (_ : Unit) (line : String) : Unit × String :=
   let ws := words line
-  let (cfg, ws) : Cfg × List String := match ws with
-    | "fixed" :: r => ({ identityMulFixed := true, zeroMulFixed := true }, r)
-    | r => ({}, r)
   match pProg ws with
   | some (p, []) =>
-    match Impl.eval (env cfg) p with
+    match Impl.eval env p with
     | .ok r => ((), s!"ok {r.tree} {r.rows} {r.cols} {showVals r}")
     | .error e => ((), s!"err {showErr e}")
   | _ => ((), "bad-line")
